@@ -176,6 +176,84 @@ func (c hsCase) runResponse(render func(string) []byte) error {
 	return nil
 }
 
+// TestHandshakeWriteFaults: the request (resp. response) is complete, but the
+// transport fails one of the peer's own writes: the handshake must not report success.
+func TestHandshakeWriteFaults(t *testing.T) {
+	hx.Check(t, 1, func(t *rapid.T) {
+		bufsz := rapid.SampledFrom([]int{0, 16, 64, 128}).Draw(t, "wbufsize")
+		failAt := rapid.IntRange(0, 4).Draw(t, "failAt")
+		short := rapid.IntRange(0, 20).Draw(t, "short")
+		if rapid.Bool().Draw(t, "server") {
+			head := validRequest(t)
+			rec := tx.NewRec()
+			rec.FailAt, rec.Short = failAt, short
+			u := ws.Upgrader{WriteBufferSize: bufsz, Protocol: func([]byte) bool { return true }, Extension: func(httphead.Option) bool { return true }}
+			_, err := u.Upgrade(tx.RW{Reader: tx.NewSrc([]byte(head), nil), Writer: rec})
+			hx.Eval()
+			hx.Class(fmt.Sprintf("handshake/write-fault/server/failed=%v", rec.Failed))
+			if rec.Failed {
+				hx.NonTrivial(hx.Hash("wf-srv", head, bufsz, failAt, short), func() interface{} {
+					return map[string]interface{}{"kind": "server write fault", "request": head, "write_buffer": bufsz, "fail_at_write": failAt, "accepted_of_failing_write": short}
+				})
+				if err == nil {
+					t.Fatalf("Upgrader.Upgrade reported success although destination write %d failed (%d bytes of the response reached the peer)\nrequest: %q", failAt, rec.Len(), head)
+				}
+			} else if err != nil {
+				t.Fatalf("harness: valid request refused: %v\n%q", err, head)
+			}
+			return
+		}
+		render := validResponse(t)
+		seed := rapid.Int64().Draw(t, "seed")
+		rand.Seed(seed)
+		p := &lazyPeer{render: render, cut: -1, fault: io.EOF}
+		fw := &failingPeer{lazyPeer: p, failAt: failAt, short: short}
+		d := dialer(0)
+		d.WriteBufferSize = bufsz
+		br, _, err := d.Upgrade(fw, testURL)
+		hx.Eval()
+		hx.Class(fmt.Sprintf("handshake/write-fault/client/failed=%v", fw.failed))
+		if fw.failed {
+			hx.NonTrivial(hx.Hash("wf-cli", bufsz, failAt, short, seed), func() interface{} {
+				return map[string]interface{}{"kind": "client write fault", "write_buffer": bufsz, "fail_at_write": failAt, "accepted_of_failing_write": short}
+			})
+			if err == nil {
+				t.Fatalf("Dialer.Upgrade reported success although its request write %d failed", failAt)
+			}
+			if br != nil {
+				t.Fatalf("Dialer.Upgrade returned a buffered reader together with the error %v", err)
+			}
+		} else if err != nil {
+			t.Fatalf("harness: valid response refused: %v", err)
+		}
+	})
+}
+
+// failingPeer fails the failAt-th Write of the dialer (accepting short bytes of it) and every later one.
+type failingPeer struct {
+	*lazyPeer
+	failAt, short int
+	calls         int
+	failed        bool
+}
+
+func (f *failingPeer) Write(b []byte) (int, error) {
+	if f.failed {
+		return 0, tx.ErrInjected
+	}
+	if f.calls == f.failAt {
+		f.failed = true
+		n := f.short
+		if n > len(b) {
+			n = len(b)
+		}
+		f.lazyPeer.Write(b[:n])
+		return n, tx.ErrInjected
+	}
+	f.calls++
+	return f.lazyPeer.Write(b)
+}
+
 func TestHandshakeCuts(t *testing.T) {
 	hx.Check(t, 0.5, func(t *rapid.T) {
 		chunks := gen.Chunks(t, "chunks")
